@@ -233,5 +233,108 @@ fn main() {
             }
         }
     }
+    // haystack objects whose AsRef answer changes once (see DESIGN §11.20), reduced: only with the
+    // second embedding so that the three parallel Miri processes do not repeat it
+    if only.map_or(true, |o| o == 1) {
+        let (c, s2) = shifty();
+        cases += c;
+        searches += s2;
+    }
     println!("MIRI-SUMMARY cases={cases} searches={searches} scope=S(2,{maxlen},{k}|{n},1) embeddings={}", embs.len());
+}
+
+struct Shifty {
+    v1: String,
+    v2: String,
+    k: usize,
+    calls: std::cell::Cell<usize>,
+}
+impl Shifty {
+    fn view(&self) -> &str {
+        let c = self.calls.get();
+        self.calls.set(c + 1);
+        if c < self.k {
+            &self.v1
+        } else {
+            &self.v2
+        }
+    }
+}
+impl AsRef<str> for Shifty {
+    fn as_ref(&self) -> &str {
+        self.view()
+    }
+}
+impl AsRef<[u8]> for Shifty {
+    fn as_ref(&self) -> &[u8] {
+        self.view().as_bytes()
+    }
+}
+
+/// Every ordered pair of views of <= 2 characters over {a, e-acute, U+4E16} x every switch point x the
+/// slice entry points of both variants (Standard and LeftmostLongest). Any result is accepted; Miri
+/// reports undefined behaviour.
+fn shifty() -> (u64, u64) {
+    use daachorse::{CharwiseDoubleArrayAhoCorasickBuilder, DoubleArrayAhoCorasickBuilder, MatchKind};
+    let letters = ["a", "\u{e9}", "\u{4e16}"];
+    let mut views: Vec<String> = vec![String::new()];
+    for a in letters {
+        views.push(a.to_string());
+        for b in letters {
+            views.push(format!("{a}{b}"));
+        }
+    }
+    let pats = ["a", "\u{e9}a", "\u{4e16}\u{e9}"];
+    let (mut cases, mut searches) = (0u64, 0u64);
+    for kind in [MatchKind::Standard, MatchKind::LeftmostLongest] {
+        let b = DoubleArrayAhoCorasickBuilder::new().match_kind(kind).build::<_, _, u32>(pats).unwrap();
+        let c = CharwiseDoubleArrayAhoCorasickBuilder::new().match_kind(kind).build::<_, _, u32>(pats).unwrap();
+        for v1 in &views {
+            for v2 in &views {
+                if v1 == v2 {
+                    continue;
+                }
+                cases += 1;
+                let methods = if kind == MatchKind::Standard { 3 } else { 1 };
+                for m in 0..methods {
+                    for variant in 0..2 {
+                        let mut k = 0usize;
+                        loop {
+                            let sh = Shifty { v1: v1.clone(), v2: v2.clone(), k, calls: std::cell::Cell::new(0) };
+                            let _ = std::panic::catch_unwind(std::panic::AssertUnwindSafe(|| {
+                                let cap = 200usize;
+                                macro_rules! drain {
+                                    ($it:expr) => {{
+                                        let mut n = 0;
+                                        for _x in $it {
+                                            n += 1;
+                                            if n > cap {
+                                                break;
+                                            }
+                                        }
+                                    }};
+                                }
+                                match (variant, kind == MatchKind::Standard, m) {
+                                    (0, true, 0) => drain!(b.find_iter(&sh)),
+                                    (0, true, 1) => drain!(b.find_overlapping_iter(&sh)),
+                                    (0, true, _) => drain!(b.find_overlapping_no_suffix_iter(&sh)),
+                                    (0, false, _) => drain!(b.leftmost_find_iter(&sh)),
+                                    (_, true, 0) => drain!(c.find_iter(&sh)),
+                                    (_, true, 1) => drain!(c.find_overlapping_iter(&sh)),
+                                    (_, true, _) => drain!(c.find_overlapping_no_suffix_iter(&sh)),
+                                    (_, false, _) => drain!(c.leftmost_find_iter(&sh)),
+                                }
+                            }));
+                            searches += 1;
+                            k += 1;
+                            if k > sh.calls.get() || k > 12 {
+                                break;
+                            }
+                        }
+                    }
+                }
+            }
+        }
+    }
+    (cases, searches)
 }
